@@ -15,7 +15,7 @@ FUNCTIONS = ['Value::do_exec', 'Value::do_sha256/do_ripemd160/do_hash256/do_hash
              'EncodeBase58(Check)/DecodeBase58(Check)', 'bech32::Encode/Decode', 'Value(const char*) inline-function parser']
 ASSUMPTIONS = ['hash compression functions uninterpreted on symbolic input (the digest arithmetic itself is outside; wiring, padding, composition are inside)', 'allocation never fails', 'printf-family output captured by the process-environment model']
 OUTSIDE = ['base58check round trips (the 4 checksum bytes are uninterpreted-hash terms that the base-58 long division must then divide: no verdict within 240 s) - base58check is exercised concretely in the encoder validation only', 'Jacobi symbol, pubkey combine/tweak, verify-sig (libsecp256k1 / 256-bit data-dependent loops)', 'base58 payloads longer than 2 bytes (symbolic division by 58 in nested loops: 3 bytes returns unknown after 80 s)', 'bech32 round trips beyond 2 data symbols in quick / 3 in thorough (n=3 exceeds 240 s); corruption detection is decided for 0 and 2 data symbols', 'CPU-specific SHA back ends']
-BOUNDS = 'hash transforms: message lengths {0,1,31,32,55,56,64}; reverse/len/prefix: lengths {0,1,2,5,252,253}; add/sub: 32-byte operands symbolic without group, low 6 bytes symbolic with a symbolic group, 32-byte residues symbolic with the groups n, p (secp256k1) and 2^256-1; base58: payload 0..3 bytes incl. leading zeros; bech32/bech32m: 0..6 five-bit symbols, every single-character substitution at every position'
+BOUNDS = 'hash transforms: message lengths {0,1,31,32,55,56,64}; reverse/len/prefix: lengths {0,1,2,5,252,253}; add/sub: 32-byte operands symbolic without group, low 6 bytes symbolic with a symbolic group, 32-byte residues symbolic with the groups n, p (secp256k1) and 2^256-1; base58: payload 0..3 bytes incl. leading zeros; bech32/bech32m: 0..6 five-bit symbols, every single-character substitution (any printable character, either case) at every position'
 
 def setup(E):
     stubs.install_all(E)
@@ -170,8 +170,9 @@ def prep(ob, V=None):
         vals = [var('v%d' % i) for i in range(ob['n'])]; repl = var('repl')
         good = bech32_ref(vals, ob['m'])
         s = list(good); orig = s[ob['pos']]
-        # the replacement is another character of the bech32 alphabet
-        assume = ([z3.ULT(v, 32) for v in vals] + [z3.Or(*[repl == ord(c) for c in CHARSET]), repl != orig]) if sym else []
+        # the replacement is any other printable character: another character of the bech32 alphabet in either case (a case flip makes the string mixed-case),
+        # or a character outside the alphabet; '1' is excluded (it would move the separator, which the checksum guarantee does not cover)
+        assume = ([z3.ULT(v, 32) for v in vals] + [z3.UGE(repl, 33), z3.ULE(repl, 126), repl != ord('1'), repl != orig]) if sym else []
         s[ob['pos']] = repl
         def io(E, f, ret, outs):
             if ret is None: return crash(f)
